@@ -296,8 +296,11 @@ fn process_dir(
             let mut matcher_io = matchers::MatcherIO::new(deps);
 
             // (the directory -execdir runs in: "/" counts as its own directory)
+            // It is run from itself, but it is not one of its own entries: they
+            // are not put into the same invocation, whichever comes first.
             let new_dir = Some(matchers::exec::split_for_execdir(entry.path()).0);
-            if new_dir != current_dir {
+            let own_dir = new_dir.as_deref() == Some(entry.path());
+            if new_dir != current_dir || own_dir {
                 if let Some(dir) = current_dir.take() {
                     matcher.finished_dir(dir.as_path(), &mut matcher_io);
                 }
@@ -311,9 +314,7 @@ fn process_dir(
                 ret = 1;
                 let _ = writeln!(&mut stderr(), "Error: {err}");
             }
-            if current_dir.as_deref() == Some(entry.path()) {
-                // "/" is run from itself, but it is not one of its own entries:
-                // they are not put into the same invocation.
+            if own_dir {
                 if let Some(dir) = current_dir.take() {
                     matcher.finished_dir(dir.as_path(), &mut matcher_io);
                 }
